@@ -29,7 +29,7 @@ ASSUMPTIONS = [
 ]
 FUZZ_RUNS = 40000   # thorough tier: libFuzzer runs per campaign of the coverage-guided stage (vf/fuzz.py)
 BUDGET = {
-    "quick": {"examples": 500, "workers": 8, "time_cap": 70},
+    "quick": {"examples": 800, "workers": 8, "time_cap": 70},
     "thorough": {"examples": 20000, "workers": 14, "time_cap": 900},
 }
 HASH_KEYS_INFO = [b"pieces", b"files", b"file tree", b"piece length", b"name", b"length", b"meta version"]
